@@ -285,6 +285,11 @@ func (g *G) producer(A *Ty, fuel int) (func(*Term) *Term, string) {
 			return &Term{Op: "new", Y: a, Ann: g.vary(A), Body: &Term{Op: "close", X: "self"}, Cont: c}
 		}, a
 	}
+	if fuel > 0 && g.coin(25) {
+		if w, n, ok := g.constructor(A, U, fuel, a); ok {
+			return w, n
+		}
+	}
 	if U.K == KPlus && g.coin(35) && fuel > 0 {
 		br := g.pickBranch(A, U, fuel)
 		w, p := g.producer(br.T, fuel-1)
@@ -450,6 +455,9 @@ func (g *G) gen(ctx []Var, A *Ty, fuel int, self string) *Term {
 		if len(ctx) == 1 && Equal(ctx[0].T, A, g.Env) && g.coin(40) {
 			g.feat("fwd")
 			return &Term{Op: "fwd", X: g.pol(g.selfRef(self), A), Y: g.pol(ctx[0].N, A)}
+		}
+		if t := g.ctxAxiom(ctx, A, U, self); t != nil {
+			return t
 		}
 		if t := g.clientAxiom(ctx, A, fuel, self); t != nil {
 			return t
@@ -941,4 +949,85 @@ func (g *G) topClientAxiom(avail *[]Var) *Proc {
 		return &Proc{Names: names, T: T, Body: body}
 	}
 	return nil
+}
+
+// ctxAxiom: the context is exactly what a positive right axiom needs (send self<x, y>,
+// self.l<x>, cast self<x>): the names of the context are used as they are, whatever way
+// their types are written (names, unfoldings).
+func (g *G) ctxAxiom(ctx []Var, A, U *Ty, self string) *Term {
+	if !g.coin(60) {
+		return nil
+	}
+	switch {
+	case U.K == KSend && len(ctx) == 2:
+		for _, o := range [][2]int{{0, 1}, {1, 0}} {
+			x, y := ctx[o[0]], ctx[o[1]]
+			if Equal(x.T, U.L, g.Env) && Equal(y.T, U.R, g.Env) {
+				g.feat("ctx-axiom-send")
+				return &Term{Op: "send", X: g.pol(g.selfRef(self), A), Y: g.pol(x.N, x.T), Z: g.pol(y.N, y.T)}
+			}
+		}
+	case U.K == KPlus && len(ctx) == 1:
+		for _, br := range U.Br {
+			if Equal(ctx[0].T, br.T, g.Env) {
+				g.feat("ctx-axiom-select")
+				return &Term{Op: "sel", X: g.pol(g.selfRef(self), A), Lbl: br.L, Y: g.pol(ctx[0].N, ctx[0].T)}
+			}
+		}
+	case U.K == KDown && len(ctx) == 1:
+		if ctx[0].T.M == U.From && Equal(ctx[0].T, U.L, g.Env) {
+			g.feat("ctx-axiom-cast")
+			return &Term{Op: "cast", X: g.pol(g.selfRef(self), A), Y: g.pol(ctx[0].N, ctx[0].T)}
+		}
+	}
+	return nil
+}
+
+// constructor: a channel of type A is built by a small "constructor" function whose body is
+// the positive right axiom on its parameters, e.g.
+//   let pairN(q1 : T1, q2 : T2) : T1 * T2 = send self<q1, q2>
+// as hand-written programs do (cons, succ, ...). The parameters keep the types as written.
+func (g *G) constructor(A, U *Ty, fuel int, a string) (func(*Term) *Term, string, bool) {
+	mkFn := func(params []Var, body func(ps []Var) *Term) string {
+		g.nFn++
+		f := &Func{Name: fmt.Sprintf("ctor%d", g.nFn), Ret: g.vary(A)}
+		g.scope(func() {
+			for _, v := range params {
+				f.Params = append(f.Params, Var{g.fresh("q"), g.vary(v.T)})
+			}
+			f.Body = body(f.Params)
+		})
+		g.P.Funcs = append(g.P.Funcs, f)
+		g.feat("constructor")
+		return f.Name
+	}
+	switch U.K {
+	case KSend:
+		w1, p1 := g.producer(U.L, fuel-1)
+		w2, p2 := g.producer(U.R, fuel-1)
+		fn := mkFn([]Var{{"", U.L}, {"", U.R}}, func(ps []Var) *Term {
+			return &Term{Op: "send", X: "self", Y: g.pol(ps[0].N, ps[0].T), Z: g.pol(ps[1].N, ps[1].T)}
+		})
+		return func(c *Term) *Term {
+			return w1(w2(&Term{Op: "new", Y: a, Body: &Term{Op: "call", Fn: fn, Args: []string{p1, p2}}, Cont: c}))
+		}, a, true
+	case KPlus:
+		br := g.pickBranch(A, U, fuel)
+		w, p := g.producer(br.T, fuel-1)
+		fn := mkFn([]Var{{"", br.T}}, func(ps []Var) *Term {
+			return &Term{Op: "sel", X: "self", Lbl: br.L, Y: g.pol(ps[0].N, ps[0].T)}
+		})
+		return func(c *Term) *Term {
+			return w(&Term{Op: "new", Y: a, Body: &Term{Op: "call", Fn: fn, Args: []string{p}}, Cont: c})
+		}, a, true
+	case KDown:
+		w, p := g.producer(U.L, fuel-1)
+		fn := mkFn([]Var{{"", U.L}}, func(ps []Var) *Term {
+			return &Term{Op: "cast", X: "self", Y: g.pol(ps[0].N, ps[0].T)}
+		})
+		return func(c *Term) *Term {
+			return w(&Term{Op: "new", Y: a, Body: &Term{Op: "call", Fn: fn, Args: []string{p}}, Cont: c})
+		}, a, true
+	}
+	return nil, "", false
 }
